@@ -359,7 +359,7 @@ MANIFEST_TEXT = {
     "C19": {
         "technique": "Lean 4 theorems: every path, scheme URL, relative path and archive file name (with extras / marker / leading whitespace, any environment) is rejected by the model requirement parser with the unsupported-requirement kind and never accepted; declarative specs of looks_like_archive and split_scheme; differential model on generated shapes; unnamed parser by oracle + translated archive-extension lists (regenerated from the sources on every run and proved equal to the model's by decide)",
         "text": "path_unsupported, scheme_url_unsupported, relpath_unsupported, archive_name_unsupported(+extras) and *_never_accepted over all inputs of each shape; archive_rule / scheme_rule characterise the helper functions; every generated shape x suffix is compared between implementation and model and judged by the oracle.",
-        "note": _NOTE + "both halves are theorems about the models: default feature — never a name, dedicated error kind (paths, scheme URLs, relative paths, archive names; extras / marker suffixes, leading whitespace, any environment); extension feature — the unnamed parser model never panics, errors on char boundaries, token scan = declarative rule with bracket depth, acceptance and recovery of verbatim text / extras / marker, round trip of the printed form, bracket ambiguity proved. The unnamed model is tied to the code only in the thorough tier (the default build does not compile src/unnamed.rs); building the URL value from the classified text is external.",
+        "note": _NOTE + "both halves are theorems about the models: default feature — never a name, dedicated error kind (paths, scheme URLs, relative paths, archive names; extras / marker suffixes, leading whitespace, any environment); extension feature — the unnamed parser model never panics, errors on char boundaries, token scan = declarative rule with bracket depth, acceptance and recovery of verbatim text / extras / marker, round trip of the printed form, bracket ambiguity proved. The unnamed model is tied to the code in the extension build of the harness (quick and thorough tier; the default build does not compile src/unnamed.rs); building the URL value from the classified text is external.",
     },
     "C10": {
         "technique": "Lean 4 theorem: the diagram of `python_version OP V` evaluates as PEP 440 release comparison of X.Y (all operators, all literals outside the carve-out), "
@@ -381,7 +381,7 @@ MANIFEST_TEXT = {
         "text": "parseMarkers_never_panics / parseExpression_never_panics / parseRequirement_no_panic (names, extras, URL scan, specifier scans, unnamed detection, marker hand-off): "
                 "no panic site is reachable for any Unicode input and any behaviour of the external parsers, every error span (and every span handed to pep440_rs / url) starts on a char "
                 "boundary, and formatting such an error never slices off a boundary whatever its length field holds (display_never_panics, *_err_renderable); models compared with the code on hostile inputs in worker processes, every error rendered, every panic / poisoned lock reported.",
-        "note": _NOTE + "Display's slicing is modelled (errDisplaySlices) and proved total for every span that starts on a char boundary, and compared with the printed underline on every error of the suites (unicode_width is an external function passed per case); stack exhaustion on unbounded nesting and the unnamed parser are outside the model; K3 (u64 overflow in debug builds) is a known finding.",
+        "note": _NOTE + "Display's slicing is modelled (errDisplaySlices) and proved total for every span that starts on a char boundary, and compared with the printed underline on every error of the suites (unicode_width is an external function passed per case); stack exhaustion on unbounded nesting is outside the model; the unnamed parser of the extension feature is modelled (Model/Unnamed.lean: unnamed_no_panic, unnamed_err_boundary) and compared in the extension build of the harness; K3 (u64 overflow in debug builds) is a known finding.",
     },
     "C17": {
         "technique": "Lean 4 theorems: typed dispatch (for every behaviour of the external parsers); uninterpretable_anywhere / parse_is_pruned — for every well-formed marker text (any and/or/parenthesis structure, any layout) containing uninterpretable comparisons at any positions, parsing succeeds, every such comparison's warning reaches the reporter in order, and the result is the tree of the text with exactly those comparisons removed (TRUE if nothing remains) + exhaustive table and insertion correspondence",
